@@ -21,6 +21,7 @@
 #include <shark/Algorithms/DirectSearch/SteadyStateMOCMA.h>
 #include <shark/Algorithms/DirectSearch/SMS-EMOA.h>
 #include <shark/Algorithms/DirectSearch/RealCodedNSGAII.h>
+#include <shark/Algorithms/DirectSearch/RealCodedNSGAIII.h>
 #include <shark/Algorithms/DirectSearch/MOEAD.h>
 #include <shark/Algorithms/DirectSearch/RVEA.h>
 #include <shark/Algorithms/DirectSearch/Operators/Lattice.h>
@@ -275,6 +276,119 @@ static std::string runRvea(UpdOp const& op, std::string& orc, std::string& auxOu
 	return out;
 }
 
+// ---------------------------------------------------------------- NSGA-III: replica of the floating-point association step
+// (copy of NSGA3Indicator::leastContributors up to `pairing`; its result is an observed INPUT of the model)
+static RealVector nsga3Normalizer(std::vector<RealVector> const& points){
+	double epsilon = 0.00001;
+	std::size_t dimensions = points.front().size();
+	RealMatrix cornerPoints(dimensions, dimensions,0.0);
+	for(std::size_t dim = 0; dim != dimensions; ++dim){
+		KeyValuePair<double,std::size_t> best(std::numeric_limits<double>::max(),0);
+		for(std::size_t i = 0; i != points.size(); ++i){
+			auto const& point = points[i];
+			double dist = epsilon * sum(point) + (1-epsilon) * point[dim];
+			best = std::min(best,makeKeyValuePair(dist,i));
+		}
+		noalias(row(cornerPoints,dim)) = points[best.value];
+	}
+	RealMatrix A = trans((cornerPoints|1)) % (cornerPoints|1);
+	RealVector b = trans((cornerPoints|1)) % blas::repeat(-1.0,dimensions);
+	blas::symm_pos_semi_definite_solver<RealMatrix> solver(A);
+	if(solver.rank() == dimensions){
+		solver.solve(b, blas::left());
+		RealVector w = subrange(b,0,dimensions);
+		if(min(w) >= 0) return blas::repeat(1.0,dimensions)/w;
+	}
+	RealVector nadir = points.front();
+	for(auto& point: points) noalias(nadir) = max(nadir,point);
+	for(std::size_t i = 0; i != nadir.size(); ++i) if(!(nadir(i) > 0)) nadir(i) = 1.0;
+	return nadir;
+}
+// (distance, reference index) per point of archive ++ front
+static std::vector<std::pair<double,std::size_t> > nsga3Assoc(std::vector<RealVector> points, std::vector<RealVector> const& Z){
+	RealVector ideal = points.front();
+	for(auto& point: points) noalias(ideal) = min(ideal,point);
+	for(auto& point: points) noalias(point) = point - ideal;
+	RealVector normalizer = nsga3Normalizer(points);
+	for(auto& point: points) noalias(point) = point/ normalizer;
+	std::vector<std::pair<double,std::size_t> > res(points.size(), std::make_pair(std::numeric_limits<double>::max(), std::size_t(0)));
+	for(std::size_t j = 0; j != points.size(); ++j)
+		for(std::size_t i = 0; i != Z.size(); ++i){
+			double dist = norm_sqr(points[j]) - sqr(inner_prod(Z[i],points[j]));
+			if(dist < res[j].first) res[j] = std::make_pair(dist, i);
+		}
+	return res;
+}
+
+typedef Individual<RealVector, RealVector> NInd;
+// association for the call IndicatorBasedSelection makes on `all` (ranks by definition): "count nz k z k z ..."
+static std::string nsga3StepAux(std::vector<NInd> const& all, std::size_t mu, std::vector<RealVector> const& Z){
+	std::vector<Pt> P; for(auto const& x: all) P.push_back(Pt(x.penalizedFitness().begin(), x.penalizedFitness().end()));
+	std::vector<unsigned> rk = ranksByDefinition(P);
+	unsigned maxRank = 0; for(unsigned r: rk) maxRank = std::max(maxRank, r);
+	std::size_t popSize = all.size(); unsigned R = maxRank;
+	for(;; --R){
+		std::size_t fs = 0; for(unsigned r: rk) if(r == R) ++fs;
+		if(R == 0 || popSize - fs < mu) break;
+		popSize -= fs;
+	}
+	std::vector<RealVector> pts;
+	for(unsigned r = 1; r < R; ++r) for(std::size_t i = 0; i != all.size(); ++i) if(rk[i] == r) pts.push_back(all[i].penalizedFitness());
+	for(std::size_t i = 0; i != all.size(); ++i) if(rk[i] == R) pts.push_back(all[i].penalizedFitness());
+	auto as = nsga3Assoc(pts, Z);
+	std::vector<double> u; for(auto const& a: as) u.push_back(a.first);
+	std::sort(u.begin(), u.end()); u.erase(std::unique(u.begin(), u.end()), u.end());
+	std::string s = " " + std::to_string(as.size()) + " " + std::to_string(Z.size());
+	for(auto const& a: as) s += " " + std::to_string(std::lower_bound(u.begin(), u.end(), a.first) - u.begin()) + " " + std::to_string(a.second);
+	return s;
+}
+static std::string runNsga3(UpdOp const& op, std::string& orc, std::string& auxOut){
+	random::rng_type rng(7);
+	Probe<RealCodedNSGAIII> opt(rng);
+	RealVector lo(op.d, -1e6), hi(op.d, 1e6);
+	opt.init(op.px, op.pf, lo, hi, op.mu, 20.0, 20.0, 0.9);
+	// reference directions: set explicitly to the lattice the optimizer uses (unit vectors on the lattice)
+	RealMatrix refs = unitVectorsOnLattice(op.m, computeOptimalLatticeTicks(op.m, op.mu));
+	std::vector<RealVector> Z; for(std::size_t i = 0; i != refs.size1(); ++i) Z.push_back(row(refs, i));
+	opt.indicator().setReferencePoints(Z);
+	for(auto& z: Z) z /= norm_2(z);
+	std::string out = showPop(opt.parents());
+	std::size_t auxPos = 0;
+	for(std::size_t s = 0; s != op.steps; ++s){
+		std::vector<NInd> before = opt.parents();
+		std::vector<NInd> o = opt.offspring();
+		if(o.size() != op.off[s].size()){ orc += " !oracle offspring-count"; return out; }
+		for(std::size_t i = 0; i != o.size(); ++i){
+			o[i].searchPoint() = op.off[s][i][0]; o[i].penalizedFitness() = op.off[s][i][1]; o[i].unpenalizedFitness() = op.off[s][i][2];
+		}
+		std::vector<NInd> all = before; all.insert(all.end(), o.begin(), o.end());
+		std::string a = nsga3StepAux(all, op.mu, Z);
+		auxOut += a;
+		if(!g_aux){
+			Ints want; { std::vector<std::string> t = vh::tokens(a); parseInts(t, 0, t.size(), want); }
+			bool same = auxPos + want.size() <= op.aux.size();
+			for(std::size_t i = 0; same && i != want.size(); ++i) same = op.aux[auxPos + i] == want[i];
+			if(!same) orc += " !oracle aux-mismatch step=" + std::to_string(s + 1);
+			auxPos += want.size();
+		}
+		opt.update(o);
+		std::vector<NInd> const& after = opt.parents();
+		out += " / " + showPop(after);
+		if(after.size() != op.mu || opt.solution().size() != op.mu) orc += " !oracle size step=" + std::to_string(s + 1);
+		std::multiset<Key> pool; for(auto const& p: all) pool.insert(keyOf(p));
+		for(auto const& p: after){ auto it = pool.find(keyOf(p)); if(it == pool.end()){ orc += " !oracle survivor-not-from-pool step=" + std::to_string(s + 1); break; } pool.erase(it); }
+		// elitism w.r.t. ranks by definition
+		std::vector<Pt> P; std::vector<Key> K;
+		for(auto const& p: all){ P.push_back(Pt(p.penalizedFitness().begin(), p.penalizedFitness().end())); K.push_back(keyOf(p)); }
+		std::vector<unsigned> rk = ranksByDefinition(P);
+		std::multiset<Key> kept; for(auto const& p: after) kept.insert(keyOf(p));
+		unsigned worstKept = 0, bestDropped = 1000000;
+		for(std::size_t i = 0; i != P.size(); ++i){ auto it = kept.find(K[i]); if(it != kept.end()){ kept.erase(it); worstKept = std::max(worstKept, rk[i]); } else bestDropped = std::min(bestDropped, rk[i]); }
+		if(worstKept > bestDropped) orc += " !oracle elitism step=" + std::to_string(s + 1);
+	}
+	return out;
+}
+
 static std::string handle(std::string const& line, std::string& orc){
 	std::vector<std::string> t = vh::tokens(line);
 	if(t.empty()) return "";
@@ -380,6 +494,10 @@ static std::string handle(std::string const& line, std::string& orc){
 			if(g_aux){ std::string s; for(auto v: nbv) s += " " + std::to_string(v); return s; }
 			if(nbv != op.aux) orc += " !oracle aux-mismatch";
 			out = runUpd<MOEAD>(op, [&](Probe<MOEAD>& o){ o.init(op.px, op.pf, lo, hi, op.mu, 20.0, 20.0, 0.9, op.T); }, false, false, orc);
+		}else if(op.algo == "nsga3"){
+			std::string auxOut;
+			out = runNsga3(op, orc, auxOut);
+			if(g_aux) return auxOut;
 		}else if(op.algo == "rvea"){
 			std::string auxOut;
 			out = runRvea(op, orc, auxOut);
